@@ -14,12 +14,17 @@ type refT struct{ id int }
 var refA = &refT{1}
 var refB = &refT{2}
 
+// refA2 is another object with the same content as refA: references are compared by identity, not by content
+var refA2 = &refT{1}
+
 func refOf(s string) any {
 	switch s {
 	case "1":
 		return refA
 	case "2":
 		return refB
+	case "3":
+		return refA2
 	}
 	return nil
 }
@@ -34,6 +39,9 @@ func showRefAny(v any) string {
 		}
 		if p == refB {
 			return "2"
+		}
+		if p == refA2 {
+			return "3"
 		}
 		if p == nil {
 			return "typed-nil"
